@@ -73,6 +73,7 @@ type c40run struct {
 	extra     map[string]int
 	work      []string
 	mapPerms  int
+	rootKind  int
 	big       bool
 	failure   *simrt.Failure
 	cleanup   string
@@ -101,6 +102,11 @@ func (c40) NewRun(plan *simrt.Source, job *harn.Job) harn.Run {
 	np := 1 + plan.Draw(3)
 	nf := 1 + plan.Draw(3)
 	names := []string{"a", "b/c", "d", "e/f/g"}[:nDirs]
+	if plan.Chance(300) {
+		// names that differ in case only are different directories here
+		names = [][]string{{"a", "A", "b/c", "b/C"}, {"Foo", "foo", "d", "D"}, {"pkg/Util", "pkg/util", "X", "e"}}[plan.Draw(3)][:nDirs]
+	}
+	r.rootKind = plan.Draw(4) // 0,1: a path that does not exist; 2: a real directory; 3: a real directory whose name has no letters
 	budget := maxOps
 	if plan.Chance(400) {
 		// directories created (with content) below the watched root: DirAdded
@@ -262,14 +268,18 @@ func (r *c40run) Body(s *simrt.Sim) {
 		return s.Sched().Perm(n)
 	})
 	root := "/zsimroot"
-	if len(r.trees) > 0 {
+	if len(r.trees) > 0 || r.rootKind >= 2 {
 		// DirAdded walks the real file system: the watched root is a real directory
 		base := os.Getenv("VERIF_SCRATCH")
 		if base == "" {
 			base = os.TempDir()
 		}
 		root = filepath.Join(base, fmt.Sprintf("c40-%d", os.Getpid()))
+		if r.rootKind == 3 {
+			root = filepath.Join(base, fmt.Sprintf("c40-%d", os.Getpid()), "2024.1")
+		}
 		os.RemoveAll(root)
+		os.MkdirAll(root, 0755)
 		for _, t := range r.trees {
 			for _, f := range t.Files {
 				p := filepath.Join(root, t.Name, f)
